@@ -106,6 +106,7 @@ def cases(tier):
             for shape in shapes:
                 if tier == "quick" and shape != "series" and kind == "hourly10d":
                     continue
+                out.append({"fn": "both", "kind": kind, "zone": zone, "shape": shape, "cut": "none", "cut_tz": "same"})
                 for lab, _ in cuts:
                     for cut_tz in ("same", "other"):
                         if cut_tz == "other" and shape != "series":
@@ -186,6 +187,8 @@ def run_baseline(data, end, max_days, start, opt, key0):
               n_days_billing_period_overshoot=opt["nover"], ignore_billing_period_gap_for_day_count=opt["ignore"])
     if start is not None:
         kw["start"] = start
+    if end is None:
+        end = idx.max()  # no end requested: everything up to the last row is at or before "the end" (oracle only)
     try:
         res, warns = get_baseline_data(data, **kw)
         exc = None
@@ -286,6 +289,8 @@ def run_reporting(data, start, max_days, end, opt, key0):
               ignore_billing_period_gap_for_day_count=opt["ignore"])
     if end is not None:
         kw["end"] = end
+    if start is None:
+        start = idx.min()  # no start requested (oracle only)
     try:
         res, warns = get_reporting_data(data, **kw)
         exc = None
@@ -369,6 +374,23 @@ def run_reporting(data, start, max_days, end, opt, key0):
 def run_case(case):
     data = make_data(case["kind"], case["zone"], case["shape"])
     idx = data.index
+    if case["cut"] == "none":
+        # no limit requested at all (end=None / start=None), no max_days: the whole input, under every option combination,
+        # and with an explicit opposite limit inside the data
+        viol, beh, n = [], [], 0
+        for opt in OPTS_BASE:
+            for other in (None, idx[len(idx) // 3]):
+                v, b = run_baseline(data, None, None, other, opt, {"max_days": False, "limit": "none"})
+                viol += [dict(x, detail=f"{x['detail']} | call options end=None start={other} {opt}") for x in v]
+                beh.append(b)
+                n += 1
+        for opt in OPTS_REP:
+            for other in (None, idx[2 * len(idx) // 3]):
+                v, b = run_reporting(data, None, None, other, opt, {"max_days": False, "limit": "none"})
+                viol += [dict(x, detail=f"{x['detail']} | call options start=None end={other} {opt}") for x in v]
+                beh.append(b)
+                n += 1
+        return {"behaviour": beh, "violations": viol, "stats": {"calls": n}}
     cut = dict(cut_instants(idx))[case["cut"]]
     if case["cut_tz"] == "other":
         cut = cut.tz_convert(OTHER[case["zone"]])
